@@ -344,7 +344,8 @@ class NumpyDataWrapper(SourceDataWrapper):
             A structured numpy array, containing the required chunks of all the relevant data sets from the source data.
         """
 
-        if self._dtype == self._data_source.dtype:
+        if self._dtype == self._data_source.dtype and all(k == v for k, v in self._mapping.items()):
+            # (the names must also refer to the same data sets: a mapping can swap two data sets of the same type)
             if stop is None:
                 stop = self._n_rows
             # start and stop are relative to the first row to be loaded (from_idx)
